@@ -18,6 +18,7 @@ import (
 	"runtime/debug"
 	"strconv"
 	"strings"
+	"time"
 )
 
 // Result is what a harness reports for one case.
@@ -60,6 +61,7 @@ func Main[I any](h Harness[I]) {
 	tier := flag.String("tier", "quick", "quick|thorough")
 	emit := flag.Bool("emit-consts", false, "print Gen/Consts file and exit")
 	input := flag.String("input", "", "JSONL file of inputs to run instead of generating")
+	caseTimeout := flag.Duration("case-timeout", 60*time.Second, "per-case wall limit; a case exceeding it is reported like a panic")
 	flag.Parse()
 
 	out := bufio.NewWriterSize(os.Stdout, 1<<20)
@@ -72,20 +74,35 @@ func Main[I any](h Harness[I]) {
 	}
 	enc := json.NewEncoder(out)
 	enc.SetEscapeHTML(false)
+	timeouts := 0
 	runOne := func(i int, in I) {
 		l := line{I: i, Input: in}
-		func() {
+		done := make(chan line, 1)
+		go func() {
+			l2 := l
 			defer func() {
 				if r := recover(); r != nil {
-					l.Panic = fmt.Sprintf("%v\n%s", r, debug.Stack())
+					l2.Panic = fmt.Sprintf("%v\n%s", r, debug.Stack())
 				}
+				done <- l2
 			}()
 			res := h.Run(in)
-			l.Coq, l.Obs, l.Class, l.Trivial = res.Coq, res.Obs, res.Class, res.Trivial
+			l2.Coq, l2.Obs, l2.Class, l2.Trivial = res.Coq, res.Obs, res.Class, res.Trivial
 		}()
+		select {
+		case l = <-done:
+		case <-time.After(*caseTimeout):
+			l.Panic = fmt.Sprintf("case timeout: the implementation did not finish this case within %s (hang / livelock)", *caseTimeout)
+			timeouts++
+		}
 		if err := enc.Encode(l); err != nil {
 			fmt.Fprintln(os.Stderr, "encode:", err)
 			os.Exit(2)
+		}
+		if timeouts >= 3 {
+			out.Flush()
+			fmt.Fprintln(os.Stderr, "three cases timed out; stopping the run")
+			os.Exit(0)
 		}
 	}
 	if *input != "" {
